@@ -20,8 +20,10 @@ BY_FILE = {
     "constants.py": ["C14", "C02", "C13", "C10"],
     "plotting/plot_maze.py": ["C20"],
 }
-sel = sys.argv[1:]
+sel = [a for a in sys.argv[1:] if not a.startswith("--")]
+one_each = "--one-each" in sys.argv  # one neighbouring check per change (rotating), when the full matrix does not fit the time available
 rows = []
+nth = 0
 for d in sorted(glob.glob(os.path.join(here, "benign", "C*-*"))):
     name = os.path.basename(d)
     if sel and not any(name.startswith(x) for x in sel):
@@ -33,6 +35,9 @@ for d in sorted(glob.glob(os.path.join(here, "benign", "C*-*"))):
         for k, v in BY_FILE.items():
             if f.startswith(k):
                 props += [p for p in v if p != own and p not in props]
+    if one_each and props:
+        nth += 1
+        props = [props[nth % len(props)]]
     for prop in props:
         p = subprocess.run([os.path.join(here, "tools", "benign_eval.sh"), d, prop], capture_output=True, text=True, env=dict(os.environ, BENIGN_SKIP_DEMO="1"))
         try:
@@ -43,5 +48,8 @@ for d in sorted(glob.glob(os.path.join(here, "benign", "C*-*"))):
         rows.append(row)
         print(json.dumps(row), flush=True)
 if not sel:
-    json.dump(rows, open(os.path.join(here, "benign", "CROSS.json"), "w"), indent=1)
+    prev = []
+    if one_each and os.path.exists(os.path.join(here, "benign", "CROSS.json")):
+        prev = [r for r in json.load(open(os.path.join(here, "benign", "CROSS.json"))) if (r["benign"], r["check"]) not in {(x["benign"], x["check"]) for x in rows}]
+    json.dump(prev + rows, open(os.path.join(here, "benign", "CROSS.json"), "w"), indent=1)
 print("ALARMS:", [(r["benign"], r["check"]) for r in rows if r.get("check_exit") != 0])
